@@ -71,19 +71,68 @@ fn plen(r: &mut Rng, big: bool) -> usize {
     }
 }
 
-fn sock(r: &mut Rng, v6: bool) -> SocketAddr {
-    let rp = r.next_u64() as u16;
-    let port = *r.pick(&[0u16, 1, 255, 256, 443, 65535, rp]);
-    if v6 {
-        let ip = match r.below(4) { 0 => 0u128, 1 => u128::MAX, 2 => 1, _ => ((r.next_u64() as u128) << 64) | r.next_u64() as u128 };
-        SocketAddr::new(IpAddr::V6(Ipv6Addr::from(ip)), port)
-    } else {
-        let ip = match r.below(4) { 0 => 0u32, 1 => u32::MAX, 2 => 0x7f000001, _ => r.next_u64() as u32 };
-        SocketAddr::new(IpAddr::V4(Ipv4Addr::from(ip)), port)
+/// Address classes (the generator of EVERY address-bearing codec: ADD_ADDRESS, PUNCH_ME_NOW,
+/// EndpointAddr, Link, PreferredAddress).  An IPv6 value is any of the 2^128 bit patterns — in
+/// particular the ones that *look like* IPv4 (IPv4-mapped `::ffff:a.b.c.d`, IPv4-compatible
+/// `::a.b.c.d`, NAT64, 6to4) stay IPv6 values and must be written as 16 bytes.
+pub(crate) fn ip4_special(r: &mut Rng) -> u32 {
+    match r.below(12) {
+        0 => 0,                                    // unspecified 0.0.0.0
+        1 => u32::MAX,                             // limited broadcast
+        2 => 0x7f00_0001,                          // loopback
+        3 => 0xa9fe_0000 | r.below(1 << 16) as u32, // link-local 169.254/16
+        4 => 0xe000_0001,                          // multicast 224.0.0.1
+        5 => 0xc000_0201,                          // documentation 192.0.2.1
+        6 => 0x0a00_0000 | r.below(1 << 24) as u32, // private 10/8
+        7 => 0xc0a8_01ff,                          // directed broadcast 192.168.1.255
+        8 => 0x0000_0001,                          // 0.0.0.1
+        _ => r.next_u64() as u32,
     }
 }
 
-fn show_sock(a: &SocketAddr) -> String {
+pub(crate) fn ip6_special(r: &mut Rng) -> (u128, &'static str) {
+    let v4 = ip4_special(r) as u128;
+    match r.below(16) {
+        0 | 1 | 2 => ((0xffffu128 << 32) | v4, "v4-mapped"),           // ::ffff:a.b.c.d
+        3 => (v4, "v4-compatible"),                                  // ::a.b.c.d  (includes :: and ::1-like)
+        4 => (0, "unspecified"),
+        5 => (1, "loopback"),
+        6 => ((0xfe80u128 << 112) | r.next_u64() as u128, "link-local"),
+        7 => ((0xff02u128 << 112) | 1, "multicast"),
+        8 => ((0xff0eu128 << 112) | r.next_u64() as u128, "multicast"),
+        9 => (u128::MAX, "all-ones"),
+        10 => ((0x0064_ff9bu128 << 96) | v4, "nat64"),               // 64:ff9b::a.b.c.d
+        11 => ((0x2002u128 << 112) | (v4 << 80), "6to4"),            // 2002:a.b.c.d::
+        12 => ((0x2001_0db8u128 << 96) | r.next_u64() as u128, "documentation"),
+        13 => ((0xfc00u128 << 112) | r.next_u64() as u128, "unique-local"),
+        _ => (((r.next_u64() as u128) << 64) | r.next_u64() as u128, "random"),
+    }
+}
+
+pub(crate) fn port_special(r: &mut Rng) -> u16 {
+    let rp = r.next_u64() as u16;
+    *r.pick(&[0u16, 0, 1, 255, 256, 443, 65535, 65535, rp, rp])
+}
+
+/// `(address, class)`; link-local IPv6 addresses sometimes carry a scope id / flowinfo (host-local,
+/// never encoded: the monitors compare modulo them).
+pub(crate) fn sock_c(r: &mut Rng, v6: bool) -> (SocketAddr, &'static str) {
+    let port = port_special(r);
+    if v6 {
+        let (ip, class) = ip6_special(r);
+        if class == "link-local" && r.chance(1, 2) {
+            let a = std::net::SocketAddrV6::new(Ipv6Addr::from(ip), port, r.below(3) as u32, 1 + r.below(9) as u32);
+            return (SocketAddr::V6(a), "link-local-scoped");
+        }
+        (SocketAddr::new(IpAddr::V6(Ipv6Addr::from(ip)), port), class)
+    } else {
+        (SocketAddr::new(IpAddr::V4(Ipv4Addr::from(ip4_special(r))), port), "v4")
+    }
+}
+
+pub(crate) fn sock(r: &mut Rng, v6: bool) -> SocketAddr { sock_c(r, v6).0 }
+
+pub(crate) fn show_sock(a: &SocketAddr) -> String {
     match a.ip() {
         IpAddr::V4(ip) => format!("4:{}:{}", u32::from(ip), a.port()),
         IpAddr::V6(ip) => format!("6:{}:{}", u128::from(ip), a.port()),
@@ -258,7 +307,7 @@ pub(crate) fn gen_frame(r: &mut Rng, kind: u64, sink: &mut Sink) -> (Frame, bool
             (Frame::NewConnectionId(NewConnectionIdFrame::new(cid, vi(seq), vi(rpt))), rpt <= seq && n > 0, true)
         }
         10 => (Frame::RetireConnectionId(RetireConnectionIdFrame::new(vi(bv(r)))), true, true),
-        11 => (Frame::PathChallenge(PathChallengeFrame::from_slice(&r.bytes(8))), true, true),
+        11 => { let d = match r.below(4) { 0 => vec![0u8; 8], 1 => vec![0xffu8; 8], _ => r.bytes(8) }; (Frame::PathChallenge(PathChallengeFrame::from_slice(&d)), true, true) }
         12 => (Frame::PathResponse(PathResponseFrame::from(PathChallengeFrame::from_slice(&r.bytes(8)))), true, true),
         13 => (Frame::StreamCtl(ResetStreamFrame::new(StreamId::from(vi(bv(r))), vi(bv(r)), vi(bv(r))).into()), true, true),
         14 => (Frame::StreamCtl(StopSendingFrame::new(StreamId::from(vi(bv(r))), vi(bv(r))).into()), true, true),
@@ -300,9 +349,9 @@ pub(crate) fn gen_frame(r: &mut Rng, kind: u64, sink: &mut Sink) -> (Frame, bool
             sink.branch(if with_len { "datagram:len" } else { "datagram:nolen" });
             (Frame::Datagram(DatagramFrame::new(with_len, vi(declared)), Bytes::from(r.bytes(n))), declared == n as u64, with_len)
         }
-        22 => { let v6 = r.chance(1, 2); (Frame::AddAddress(AddAddressFrame::new(bv32(r), sock(r, v6), bv32(r), *r.pick(&NATS))), true, true) }
+        22 => { let v6 = r.chance(1, 2); let (a, c) = sock_c(r, v6); sink.branch(&format!("addr:{}", c)); (Frame::AddAddress(AddAddressFrame::new(bv32(r), a, bv32(r), *r.pick(&NATS))), true, true) }
         23 => (Frame::RemoveAddress(RemoveAddressFrame { seq_num: vi(bv(r)) }), true, true),
-        24 => { let v6 = r.chance(1, 2); (Frame::PunchMeNow(PunchMeNowFrame::new(bv32(r), bv32(r), sock(r, v6), bv32(r), *r.pick(&NATS))), true, true) }
+        24 => { let v6 = r.chance(1, 2); let (a, c) = sock_c(r, v6); sink.branch(&format!("addr:{}", c)); (Frame::PunchMeNow(PunchMeNowFrame::new(bv32(r), bv32(r), a, bv32(r), *r.pick(&NATS))), true, true) }
         25 => (Frame::PunchHello(PunchHelloFrame::new(bv32(r), bv32(r), bv32(r))), true, true),
         _ => (Frame::PunchDone(PunchDoneFrame::new(bv32(r), bv32(r), bv32(r))), true, true),
     }
@@ -394,7 +443,8 @@ fn enc_op(r: &mut Rng, sink: &mut Sink, kind: u64) -> Option<Vec<u8>> {
         if perm.contains(&pti) {
             match val {
                 Some((used, g)) => {
-                    if g != f { sink.monitor_fail(&format!("roundtrip:{}", k), &format!("{} decodes to a different value: {} -> {}", k, short(&show(&f)), short(&show(&g)))); }
+                    // scope id / flowinfo of an IPv6 socket address are host-local and not encoded: `show` omits them
+                    if g != f && show(&g) != show(&f) { sink.monitor_fail(&format!("roundtrip:{}", k), &format!("{} decodes to a different value: {} -> {}", k, short(&show(&f)), short(&show(&g)))); }
                     else if used != e.bytes.len() { sink.monitor_fail(&format!("consumed:{}", k), &format!("{} wrote {} bytes, decoder consumed {}", k, e.bytes.len(), used)); }
                 }
                 None => sink.monitor_fail(&format!("roundtrip:{}", k), &format!("{} does not decode ({}): {}", k, d, short(&show(&f)))),
